@@ -129,11 +129,13 @@ def run_step(root, do_step, step, fault=None, config_path=None, pool_seed=0, tim
                 outcome = {"exc": type(e).__name__, "msg": str(e)[:300], "where": where}
         finally:
             SIM.active = False
-        report({"outcome": outcome, "events": SIM.events, "fired": SIM.fired})
+        report({"outcome": outcome, "events": SIM.events, "fired": SIM.fired, "clock": SimClock.now})
 
     msgs, code = run_child(child, timeout=timeout)
-    out = {"outcome": None, "events": [], "fired": None, "exit": code}
+    out = {"outcome": None, "events": [], "fired": None, "exit": code, "clock": 0.0}
     for m in msgs:
+        if "clock" in m:
+            out["clock"] = m["clock"]
         if "events" in m:
             out["events"] = m["events"]
         if m.get("fired") is not None:
